@@ -45,6 +45,10 @@ def run_case(kind, d, tier):
         res["tests_passed"] = int(m.group(1)) if m else 0
         if kind == "benign":
             checks = ALL
+        elif meta.get("expect_uncaught"):
+            # a kept change that is documented as beyond the checks' reach: the named check must stay silent
+            # (if it ever fires, the documentation is out of date)
+            checks = [meta.get("property")]
         else:
             checks = meta.get("expect_caught_by") or meta.get("caught_by") or [meta.get("property")]
         res["checks"] = {}
@@ -59,7 +63,7 @@ def run_case(kind, d, tier):
                 os.makedirs("/tmp/selftest-logs", exist_ok=True)
                 with open(f"/tmp/selftest-logs/{name}-{c}.log", "w", encoding="utf-8") as fp:
                     fp.write(out)
-        if kind == "benign":
+        if kind == "benign" or meta.get("expect_uncaught"):
             res["ok"] = res["tests_passed"] >= 362 and all(v["rc"] == 0 for v in res["checks"].values())
         else:
             res["ok"] = res["tests_passed"] >= 362 and all(v["rc"] == 1 for v in res["checks"].values())
